@@ -73,6 +73,28 @@ Theorem C19_add_raises_changes_nothing : forall m j kms kbad m' e,
 Proof. exact add_raises_changes_nothing. Qed.
 Print Assumptions C19_add_raises_changes_nothing.
 
+(* a sent job of the group added again is refused, whatever gave it its identifier: the refusal is a function of
+   the CURRENT list of jobs (position k of memory), not of a separate record of identifiers *)
+Theorem C19_readd_refused : forall m k j,
+  nth_error (mem m) k = Some j -> sent j = true -> add_job cur m j None false = (m, Raised E_DUP).
+Proof. exact readd_refused. Qed.
+Print Assumptions C19_readd_refused.
+
+(* if the server never issues an identifier twice, no identifier appears twice in memory or on disk after any
+   operation of any history (sent before add, launched, re-run with or without replacement, reloaded) *)
+Theorem C19_no_identifier_twice : forall sc ops, NoDup (scids sc) ->
+  let m := run cur (init sc) ops in
+  NoDup (sids (mem m)) /\ NoDup (flat_map (fun d => match d_id d with Some i => [i] | None => [] end) (disk m)).
+Proof. exact no_identifier_twice. Qed.
+Print Assumptions C19_no_identifier_twice.
+
+Theorem C19_fresh_identifiers_satisfiable : exists sc, NoDup (scids sc) /\ length sc = 3%nat.
+Proof.
+  exists [AOk 10%Z WAITING; AFatal; AOk 11%Z ERROR]. split; [|reflexivity].
+  simpl. repeat constructor; simpl; intuition discriminate.
+Qed.
+Print Assumptions C19_fresh_identifiers_satisfiable.
+
 (* counterexamples to the full statement on the CURRENT code (open finding launch-loop-status-change-not-written) *)
 Theorem C19_disk_matches_memory_refuted_rerun_loop :
   exists ops sc, snd (step cur (run cur (init sc) (removelast ops)) (last ops OReopen)) = Returned /\
